@@ -287,7 +287,7 @@ def check(model, rep, tier):
                 line=vn.node.lineno, witness=wit)
 
   # ---------------------------------------------------------------- dependencies
-  rep.depends('C08', ['ACT-TRAV', 'ACT-ORDER'],
+  rep.depends('C08', None,
               'the state of a block is selected from the read / modified sets and '
               'from liveness, both built on what the activity analysis visits')
   rep.depends('C03', ['GETSET', 'QN-SUPPORT'],
